@@ -162,11 +162,12 @@ def attrWfB (a : Attrs) : Bool :=
   (match a.comm with | some b => b.all (· < 256) | none => true) &&
   (match a.ext with | some b => b.all (· < 256) | none => true)
 
-/-- a purge of peer `a` may only be handed the limit counter of a session of that peer, and only when
-    that session is the peer's only one (purges settle the counter by peer address) -/
+/-- a purge of peer `a` may only be handed the limit counter of a session of that peer that has a
+    limit (only those own a counter), and only when that session is the peer's only one (purges settle
+    the counter by peer address) -/
 def purgeCtrB (c : Case) (a s : Nat) : Bool :=
   match c.srcs[s]? with
-  | some src => src.addr == a && c.srcs.all (fun s' => s'.id == s || s'.addr != a)
+  | some src => src.lim.isSome && src.addr == a && c.srcs.all (fun s' => s'.id == s || s'.addr != a)
   | none => false
 
 /-- sources and attribute sets are referred to by their position in the case (`Arc` identity) -/
@@ -180,13 +181,19 @@ def opRefB (c : Case) : Op → Bool
     holds for the references `opOf?` resolves, and rejects a source used with two families. -/
 def goodB (c : Case) : Bool := c.ops.all (opRefB c) && oneFamPerSrc c.ops [] && oneLiveSession c.ops []
 
+def mkCase? (ss as os : List Term) (shard : Nat) : Option Case := do
+  let srcs ← mapIdx? srcOf? ss 0
+  let attrs ← mapIdx? attrsOf? as 0
+  let ops ← os.mapM (opOf? srcs attrs)
+  guardO (shard ≤ 254)
+  guardO (goodB { srcs, attrs, ops, shard })
+  pure { srcs, attrs, ops, shard }
+
 def caseOf? : Term → Option Case
-  | .list [.atom "case", .list (.atom "srcs" :: ss), .list (.atom "attrs" :: as), .list (.atom "ops" :: os)] => do
-      let srcs ← mapIdx? srcOf? ss 0
-      let attrs ← mapIdx? attrsOf? as 0
-      let ops ← os.mapM (opOf? srcs attrs)
-      guardO (goodB { srcs, attrs, ops })
-      pure { srcs, attrs, ops }
+  | .list [.atom "case", .list (.atom "srcs" :: ss), .list (.atom "attrs" :: as), .list (.atom "ops" :: os)] =>
+      mkCase? ss as os 0
+  | .list [.atom "case", .list (.atom "srcs" :: ss), .list (.atom "attrs" :: as), .list (.atom "ops" :: os),
+           .list [.atom "shard", k]] => do mkCase? ss as os (← asNat? k)
   | _ => none
 
 /-! ## observations -/
@@ -197,12 +204,13 @@ def pathOf? : Term → Option PathRef
   | _ => none
 
 def changeT (c : ChangeObs) : Term :=
-  list ([famT c.fam, netT c.net, nat c.destId, bool c.best, bool c.any, optNatT c.replaced, nat c.ecmp]
-        ++ c.paths.map pathT)
+  list ([famT c.fam, netT c.net, nat c.destId, bool c.best, bool c.any, optNatT c.replaced, optNatT c.newBest,
+         list (c.ecmp.map nat)] ++ c.paths.map pathT)
 def changeOf? : Term → Option ChangeObs
-  | .list (f :: n :: d :: b :: a :: r :: e :: ps) => do
+  | .list (f :: n :: d :: b :: a :: r :: nb :: .list e :: ps) => do
       pure { fam := (← famOf? f), net := (← netOf? n), destId := (← asNat? d), best := (← asBool? b),
-             any := (← asBool? a), replaced := (← optNat? r), ecmp := (← asNat? e), paths := (← ps.mapM pathOf?) }
+             any := (← asBool? a), replaced := (← optNat? r), newBest := (← optNat? nb), ecmp := (← e.mapM asNat?),
+             paths := (← ps.mapM pathOf?) }
   | _ => none
 
 def resT : ResObs → Term
@@ -225,50 +233,72 @@ def dentryOf? : Term → Option DEntry
       pure { src := (← asNat? s), rpid := (← asNat? r), attr := (← asNat? a), stale := (← asBool? st), filtered := (← asBool? f) }
   | _ => none
 
+def destsT (l : List (Net × List DEntry)) : List Term := l.map fun d => list (netT d.1 :: d.2.map dentryT)
+def destsOf? (l : List Term) : Option (List (Net × List DEntry)) :=
+  l.mapM fun
+    | .list (n :: es) => do pure ((← netOf? n), (← es.mapM dentryOf?))
+    | _ => none
+def limT (l : List (Net × List Nat)) : List Term := l.map fun x => list (netT x.1 :: x.2.map nat)
+def limOf? (l : List Term) : Option (List (Net × List Nat)) :=
+  l.mapM fun
+    | .list (n :: ps) => do pure ((← netOf? n), (← ps.mapM asNat?))
+    | _ => none
+
 def famObsT (o : FamObs) : Term :=
   tag "fam" [famT o.fam,
-    tag "dests" (o.dests.map fun d => list (netT d.1 :: d.2.map dentryT)),
-    tag "loc" (o.loc.map fun l => list (netT l.net :: nat l.destId :: nat l.ecmp :: l.paths.map pathT)),
-    tag "lim2" (o.lim2.map fun l => list (netT l.1 :: l.2.map nat)),
-    tag "state" [nat o.state.1, nat o.state.2.1, nat o.state.2.2]]
+    tag "dests" (destsT o.dests),
+    tag "nofilt" (destsT o.nofilt),
+    tag "loc" (o.loc.map fun l => list (netT l.net :: nat l.destId :: list (l.ecmp.map nat) :: l.paths.map pathT)),
+    tag "lim2" (limT o.lim2),
+    tag "lim3" (limT o.lim3),
+    tag "state" [nat o.state.1, nat o.state.2.1, nat o.state.2.2],
+    tag "adjin" (o.adjIn.map fun x => list (nat x.1 :: destsT x.2)),
+    tag "rslocal" (o.rsLocal.map fun x => list (nat x.1 :: x.2.map fun d => list [netT d.1, dentryT d.2]))]
 def famObsOf? : Term → Option FamObs
-  | .list [.atom "fam", f, .list (.atom "dests" :: ds), .list (.atom "loc" :: ls), .list (.atom "lim2" :: l2),
-           .list [.atom "state", a, b, c]] => do
-      let dests ← ds.mapM fun
-        | .list (n :: es) => do pure ((← netOf? n), (← es.mapM dentryOf?))
-        | _ => none
+  | .list [.atom "fam", f, .list (.atom "dests" :: ds), .list (.atom "nofilt" :: nf), .list (.atom "loc" :: ls),
+           .list (.atom "lim2" :: l2), .list (.atom "lim3" :: l3), .list [.atom "state", a, b, c],
+           .list (.atom "adjin" :: ai), .list (.atom "rslocal" :: rl)] => do
       let loc ← ls.mapM fun
-        | .list (n :: d :: e :: ps) => do
-            pure ({ net := (← netOf? n), destId := (← asNat? d), ecmp := (← asNat? e), paths := (← ps.mapM pathOf?) } : LocObs)
+        | .list (n :: d :: .list e :: ps) => do
+            pure ({ net := (← netOf? n), destId := (← asNat? d), ecmp := (← e.mapM asNat?), paths := (← ps.mapM pathOf?) } : LocObs)
         | _ => none
-      let lim2 ← l2.mapM fun
-        | .list (n :: ps) => do pure ((← netOf? n), (← ps.mapM asNat?))
+      let adjIn ← ai.mapM fun
+        | .list (a :: ds) => do pure ((← asNat? a), (← destsOf? ds))
         | _ => none
-      pure { fam := (← famOf? f), dests, loc, lim2, state := ((← asNat? a), (← asNat? b), (← asNat? c)) }
+      let rsLocal ← rl.mapM fun
+        | .list (a :: ds) => do
+            let l ← ds.mapM fun
+              | .list [n, e] => do pure ((← netOf? n), (← dentryOf? e))
+              | _ => none
+            pure ((← asNat? a), l)
+        | _ => none
+      pure { fam := (← famOf? f), dests := (← destsOf? ds), nofilt := (← destsOf? nf), loc, lim2 := (← limOf? l2),
+             lim3 := (← limOf? l3), state := ((← asNat? a), (← asNat? b), (← asNat? c)), adjIn, rsLocal }
   | _ => none
 
 def stepT (s : StepObs) : Term :=
   tag "st" ([resT s.res] ++ s.fams.map famObsT ++
     [tag "stats" (s.stats.map fun x => list [nat x.1, famT x.2.1, nat x.2.2.1, nat x.2.2.2]),
      tag "ctrs" (s.ctrs.map fun x => list [nat x.1, famT x.2.1, nat x.2.2]),
-     tag "stale" (s.stale.map nat), tag "llgr" (s.llgr.map nat)])
+     tag "stale" (s.stale.map nat), tag "llgr" (s.llgr.map nat), tag "cov" (s.cov.map sym)])
 
-/-- split `fam` blocks from the trailing four blocks -/
+/-- split `fam` blocks from the trailing five blocks -/
 def stepOf? : Term → Option StepObs
   | .list (.atom "st" :: r :: rest) => do
       let res ← resOf? r
       let n := rest.length
-      guardO (4 ≤ n)
-      let fams ← (rest.take (n - 4)).mapM famObsOf?
-      match rest.drop (n - 4) with
-      | [.list (.atom "stats" :: st), .list (.atom "ctrs" :: cs), .list (.atom "stale" :: sl), .list (.atom "llgr" :: ll)] =>
+      guardO (5 ≤ n)
+      let fams ← (rest.take (n - 5)).mapM famObsOf?
+      match rest.drop (n - 5) with
+      | [.list (.atom "stats" :: st), .list (.atom "ctrs" :: cs), .list (.atom "stale" :: sl), .list (.atom "llgr" :: ll),
+         .list (.atom "cov" :: cv)] =>
           let stats ← st.mapM fun
             | .list [a, f, r, c] => do pure ((← asNat? a), (← famOf? f), (← asNat? r), (← asNat? c))
             | _ => none
           let ctrs ← cs.mapM fun
             | .list [s, f, v] => do pure ((← asNat? s), (← famOf? f), (← asNat? v))
             | _ => none
-          pure { res, fams, stats, ctrs, stale := (← sl.mapM asNat?), llgr := (← ll.mapM asNat?) }
+          pure { res, fams, stats, ctrs, stale := (← sl.mapM asNat?), llgr := (← ll.mapM asNat?), cov := (← cv.mapM asSym?) }
       | _ => none
   | _ => none
 
